@@ -256,6 +256,7 @@ type pathCtx struct {
 	steps     int64
 	notes     []string
 	lastPanicSite string
+	lastPanicStack string
 	// native handles (regexp etc.) keyed by identity of interpreter pointers
 	natives map[*value]interface{}
 }
